@@ -264,7 +264,7 @@ def run(pid, tier, seed):
             for (a, b) in ws[: (10 if tier == "quick" else 40)]:
                 if a is None and b is None:
                     continue
-                cont = rng.choice(["plain", "plain", "gz", "xz", "tar", "bz2", "lz4"])
+                cont = ["plain", "bz2", "gz", "plain", "xz", "tar", "lz4"][len(cases) % 7]
                 name = "f%d.log" % fi
                 if cont == "plain":
                     fl, arg = {name: blob}, name
@@ -281,7 +281,7 @@ def run(pid, tier, seed):
                 # the file's own modification time says nothing about what a window selects: now (as written), 1980, the
                 # first message's instant, one second before the window opens
                 mt = rng.choice([None, 315532800, msgs[0][0], (a[0] - 1) if a is not None else 315532800])
-                argv = ["--color", "never", "--blocksz", str(rng.choice([64, 100, 4096, 65536]))]
+                argv = ["--color", "never", "--blocksz", str([64, 4096, 100, 65536][(len(cases) // 7) % 4])]
                 # the same instants zone-less (under -t +00:00) or with a numeric offset written on the values
                 woff = rng.choice([None, None, 60, -480, 330, 825])
                 if a is not None:
